@@ -530,7 +530,15 @@ fn themed_q(theme: &str, r: &mut Rng, s: &[Table], tags: &mut Vec<String>) -> Q 
         "q_func" | "q_nullif" => {
             let f = if theme == "q_nullif" { "NULLIF" } else { *r.pick(&FUNCS[..13]) };
             let argc = match r.below(6) { 0 => 0, 1..=3 => 1, 4 => 2, _ => 3 };
-            let args: Vec<E> = (0..argc).map(|_| match r.below(5) { 0 => E::Null, 1 => lit_e(r, 'i'), 2 => lit_e(r, 't'), 3 => lit_e(r, 'd'), _ => E::Col(any_col(r, t).0.clone()) }).collect();
+            // (now and then the smallest BIGINT / INT: ABS of them has no value of their own type)
+            let args: Vec<E> = (0..argc).map(|_| match r.below(11) { 0 | 1 => E::Null, 2 | 3 => lit_e(r, 'i'), 4 | 5 => lit_e(r, 't'), 6 | 7 => lit_e(r, 'd'), 8 => E::Int([i64::MIN, -2147483648, i64::MAX][r.below(3) as usize]), _ => E::Col(any_col(r, t).0.clone()) }).collect();
+            if theme == "q_func" && r.chance(1, 8) {
+                // a numeric function of the smallest / largest BIGINT or the smallest INT
+                tag("fn_extreme_int");
+                let f = *r.pick(&["ABS", "ABS", "CEIL", "FLOOR", "ROUND", "SQRT"]);
+                let e = E::Fn(f.to_string(), vec![E::Int([i64::MIN, -2147483648, i64::MAX][r.below(3) as usize])]);
+                return sel(t, vec![e], None);
+            }
             tag(&format!("fn_{}", f.to_lowercase()));
             tag(&format!("argc{argc}"));
             let e = if r.chance(1, 12) { E::Fn("NOSUCHFN".into(), args) } else { E::Fn(f.to_string(), args) };
